@@ -916,6 +916,7 @@ if bad or probe._config is protocol.DEFAULT_CONFIG:
 
 
 def main():
+    core.INCREMENTAL = False     # path conditions contain z3 strings
     run = Run("C06", level="other")
     interp = Interp()
     run.assumptions = [
